@@ -253,11 +253,49 @@ for _i, (_n, _e) in enumerate(_SLOT_EXTRAS):
 PROBE_KEYS = ["blank_lines_upper_bound", "tab_spaces", "hard_tabs", "max_width", "brace_style", "edition", "style_edition", "version"]
 
 NAMES = {"P": ["rustfmt.toml"], "D": [".rustfmt.toml"], "B": ["rustfmt.toml", ".rustfmt.toml"], "-": []}
+# A configuration file that sets nothing is still the nearest configuration file:
+#   e = zero-byte rustfmt.toml;  E = zero-byte .rustfmt.toml next to a populated rustfmt.toml;
+#   c = rustfmt.toml holding only a comment.
+NAMES.update({"e": ["rustfmt.toml"], "E": ["rustfmt.toml", ".rustfmt.toml"], "c": ["rustfmt.toml"]})
+
+
+class _Slots(dict):
+    """Slot names ending in `e` (zero bytes) / `c` (comment only) configure nothing."""
+
+    def __missing__(self, k):
+        if k and k[-1] in "ec":
+            return {}
+        raise KeyError(k)
+
+
+SLOTS = _Slots(SLOTS)
+
+
+def slot_of(state, prefix, nm):
+    dotted = nm.startswith(".")
+    if state == "e":
+        return prefix + "Pe"
+    if state == "c":
+        return prefix + "Pc"
+    if state == "E" and dotted:
+        return prefix + "De"
+    return prefix + ("D" if dotted else "P")
+
+
+def raw_of(slot):
+    """File content of a slot."""
+    if slot.endswith("e"):
+        return ""
+    if slot.endswith("c"):
+        return "# nothing is configured here\n"
+    return toml_of(SLOTS[slot])
 
 
 def present(state, prefix):
-    """Slots present in a directory whose state is one of - P D B, nearest-first order:
+    """Slots present in a directory whose state is one of - P D B e E c, nearest-first order:
     the dotted name wins inside one directory."""
+    if state in "eEc":
+        return [slot_of(state, prefix, nm) for nm in sorted(NAMES[state], key=lambda n: not n.startswith("."))]
     return [prefix + n for n in ("D", "P") if (n == "D" and state in "DB") or (n == "P" and state in "PB")]
 
 
@@ -365,21 +403,20 @@ def a_build(s, root):
     files = {os.path.join(filedir, "probe.rs"): PROBE_SRC}
     for k, st in enumerate(s["levels"]):
         for nm in NAMES[st]:
-            slot = f"d{k}" + ("D" if nm.startswith(".") else "P")
-            files[os.path.join(dirs[k], nm)] = toml_of(SLOTS[slot])
+            files[os.path.join(dirs[k], nm)] = raw_of(slot_of(st, f"d{k}", nm))
     for nm in NAMES[s["home"]]:
-        files[os.path.join("home", nm)] = toml_of(SLOTS["home" + ("D" if nm.startswith(".") else "P")])
+        files[os.path.join("home", nm)] = raw_of(slot_of(s["home"], "home", nm))
     for nm in NAMES[s["xdg"]]:
-        files[os.path.join("home", ".config", "rustfmt", nm)] = toml_of(SLOTS["xdg" + ("D" if nm.startswith(".") else "P")])
+        files[os.path.join("home", ".config", "rustfmt", nm)] = raw_of(slot_of(s["xdg"], "xdg", nm))
     files[os.path.join("home", "keep")] = ""
     cp = s["cp"]
     cp_argv = []
     if cp == "file":
         files["cp/custom.toml"] = toml_of(SLOTS["cpfile"])
         cp_argv = ["--config-path", os.path.join(root, "cp/custom.toml")]
-    elif cp in ("dirP", "dirD", "dirB"):
+    elif cp in ("dirP", "dirD", "dirB", "dire", "dirE", "dirc"):
         for nm in NAMES[cp[-1]]:
-            files[os.path.join("cpdir", nm)] = toml_of(SLOTS["cpdir" + ("D" if nm.startswith(".") else "P")])
+            files[os.path.join("cpdir", nm)] = raw_of(slot_of(cp[-1], "cpdir", nm))
         cp_argv = ["--config-path", os.path.join(root, "cpdir")]
     elif cp == "missing":
         cp_argv = ["--config-path", os.path.join(root, "nowhere", "rustfmt.toml")]
@@ -619,6 +656,15 @@ def a_states(thorough):
                 for home in "-PDB":
                     for xdg in "-PDB":
                         add(lv, home, xdg, None, "root-abs", ov)
+    # A1e: configuration files that configure nothing (zero bytes / a comment only) still end the search
+    for lv in itertools.product("-PeEc", repeat=3):
+        if not any(c in "eEc" for c in lv):
+            continue
+        for home in "-Pe":
+            add(list(lv) + ["-"] * (n - 3), home, "-")
+    for cp in ("dire", "dirE", "dirc"):
+        for lv in (["-"] * n, ["P"] + ["-"] * (n - 1)):
+            add(lv, "P", "-", cp, "root-abs")
     # A1c: the working directory is not a configuration source
     for cwd in ("decoy-abs", "filedir-rel", "decoy-rel"):
         for lv in level_states(n, "all" if thorough else "sparse"):
